@@ -9,7 +9,7 @@ UNSUPPORTED_PAT = ("not yet implemented", "not implemented", "not yet supported"
 
 
 def gen(module, consts, name, workers=4, timeout=300, extra_cfg="", args=()):
-    cfg = "INIT Init\nNEXT Next\nINVARIANT Emit\nCONSTANTS\n" + \
+    cfg = "INIT Init\nNEXT Next\nINVARIANT Emit\nCHECK_DEADLOCK FALSE\nCONSTANTS\n" + \
           "\n".join(f"  {k} = {v}" for k, v in consts.items()) + "\n" + extra_cfg
     r = vlib.tlc(module, cfg, name, workers=workers, timeout=timeout, args=args)
     if r.error or not r.ok:
@@ -171,7 +171,7 @@ class RelRun:
         dbc = {t: d["cols"] for t, d in it["db"].items()}
         obs = dict(it["obs"])
         return {"id": it["id"], "q": it["q"], "db": db, "dbc": dbc, "admit_error": it["admit_error"],
-                "obs": obs}
+                "obs": obs, "alt": known_defect_semantics(it["q"])}
 
     def judge(self, chunk=4000, par=6, timeout=1800):
         """TLC trace validation; returns list of mismatch dicts keyed by item id."""
@@ -192,19 +192,35 @@ class RelRun:
                 continue
             ln = self.trace_line(a)
             del ln["obs"]
+            ln["alt"] = {"k": "none"}
             ln["id"] = 1000000 + k
             ln["a"], ln["b"] = a["obs"], b["obs"]
             ln["admit_error"] = a["admit_error"] or a.get("admit_pair_error", False)
             lines.append(ln)
         # chunk by estimated judging cost (the reference evaluator is polynomial in table sizes)
+        def scans(q, acc):
+            if isinstance(q, dict):
+                if q.get("k") == "scan":
+                    acc.append(q["t"])
+                for v in q.values():
+                    scans(v, acc)
+            elif isinstance(q, list):
+                for v in q:
+                    scans(v, acc)
+            return acc
+
         def cost(line):
-            n = 1
-            for rows in line["db"].values():
-                n *= (len(rows) + 1)
-            return 10 + n
+            sizes = [len(line["db"].get(t, [])) + 1 for t in scans(line["q"], [])] or [1]
+            if len(sizes) >= 2:
+                c = 1
+                for x in sorted(sizes, reverse=True)[:3]:
+                    c *= x
+            else:
+                c = sizes[0] * sizes[0] // 8
+            return 10 + c
         lines.sort(key=cost)
         chunks, cur, curcost = [], [], 0
-        budget = 60000
+        budget = 40000
         for ln in lines:
             c = cost(ln)
             if cur and (curcost + c > budget or len(cur) >= chunk):
@@ -275,6 +291,8 @@ class RelRun:
             fam["mismatches"] += 1
             sig = {"family": self.fam, "tag": it["tag"].split("@")[0], "why": m["why"]}
             sig.update(case_features(it, m))
+            if m.get("altok"):
+                sig["alt_known_semantics"] = True
             if m["why"] == "outcome":
                 sig["observed"] = o["outcome"]
                 if o["outcome"] in ("panic", "abort", "error"):
@@ -303,6 +321,52 @@ def _streams_leftjoin(q):
     return False
 
 
+def _corr(q):
+    r = sqlgen.Renderer({})
+    return r.has_outer(q)
+
+
+def known_defect_semantics(q):
+    """The query rewritten to the semantics of two recorded findings (KF-IN-NULL-MARK: IN / ANY / ALL over a
+    subquery are two-valued - unknown becomes false for IN/ANY and true for ALL; KF-SCALAR-COUNT-NULL: a
+    correlated scalar count(*) / count(x) yields NULL instead of 0). Returns {"k": "none"} if q has neither."""
+    changed = [False]
+    T = {"k": "lit", "v": [1], "c": "b"}
+    F = {"k": "lit", "v": [0], "c": "b"}
+
+    def rw(x):
+        if isinstance(x, dict):
+            y = {k: rw(v) for k, v in x.items()}
+            k = x.get("k")
+            if k == "insub" or (k == "quant" and not x["all"]):
+                changed[0] = True
+                return {"k": "coalesce", "args": [y, F]}
+            if k == "quant" and x["all"]:
+                changed[0] = True
+                return {"k": "coalesce", "args": [y, T]}
+            if k == "scalar" and x["q"].get("k") == "agg" and not x["q"]["keys"] and \
+               x["q"]["aggs"][0]["f"] == "count" and _corr(x["q"]):
+                changed[0] = True
+                zero = {"k": "cmp", "op": "eq", "l": y, "r": {"k": "lit", "v": [0], "c": "i"}}
+                return {"k": "case", "whens": [{"c": zero, "t": {"k": "lit", "v": [], "c": "i"}}], "els": y}
+            return y
+        if isinstance(x, list):
+            return [rw(v) for v in x]
+        return x
+    alt = rw(q)
+    return alt if changed[0] else {"k": "none"}
+
+
+def has_filter_agg(x):
+    if isinstance(x, dict):
+        if x.get("k") == "agg" and any(a["filt"]["k"] != "none" for a in x["aggs"]):
+            return True
+        return any(has_filter_agg(v) for v in x.values())
+    if isinstance(x, list):
+        return any(has_filter_agg(v) for v in x)
+    return False
+
+
 def limit_over_leftjoin(x):
     if isinstance(x, dict):
         if x.get("k") == "limit" and x["c"].get("k") != "sort" and _streams_leftjoin(x["c"]):
@@ -328,6 +392,7 @@ def case_features(it, m):
         extra, missing = co - ce, ce - co
         f["delta"] = "both" if extra and missing else "extra" if extra else "missing" if missing else "order"
     f["limit_over_leftjoin"] = limit_over_leftjoin(it["q"])
+    f["filter_agg"] = has_filter_agg(it["q"])
     bs = it["cfg"].get("batch_size")
     f["bs_lt_rows"] = bs is not None and any(len(d["rows"]) > bs for d in it["db"].values())
     return f
@@ -440,3 +505,37 @@ def pshape(e):
         if isinstance(v, list):
             subs += [pshape(x) for x in v if isinstance(x, dict) and "k" in x]
     return k + ("(" + ",".join(subs) + ")" if subs else "")
+
+
+def run_tagged(prop, tier, module, consts, fam, dbs_fn, cfgs_fn, rule, extra_items=None, nontrivial=None,
+               knobs_fn=None, post=None):
+    """Common shape of the per-construct checks (C07-C09): tagged queries from a generator module x
+    databases x configurations, executed and judged by TraceRel."""
+    rep = vlib.Report(prop, tier)
+    rng = random.Random(vlib.seed())
+    g = gen(module, consts, f"{prop}-genq")
+    rep.add_tlc(g, f"GEN {module} queries")
+    queries = [p for p in g.printed if "q" in p]
+    tables = gen_tables(rep, f"{prop}-gent")
+    dbs = dbs_fn(tables, rng)
+    cfgs = cfgs_fn(rng)
+    run_ = RelRun(rep, fam)
+    for qi, p in enumerate(queries):
+        tag = "/".join(str(x) for x in p["tag"])
+        for di, db in enumerate(dbs):
+            chosen = cfgs if tier == "thorough" else [cfgs[(qi + di) % len(cfgs)]]
+            for c in chosen:
+                c = dict(c)
+                chunk = c.pop("_chunk", None)
+                run_.add(tag, p["q"], db, c, extra={"knobs": {"table_chunk_capacity": chunk}} if chunk else None)
+    if extra_items:
+        extra_items(run_, queries, rng)
+    run_.execute()
+    mism = run_.judge()
+    run_.report(mism, nontrivial=nontrivial)
+    if post:
+        post(rep, run_)
+    rep.cov["rule"] = rule
+    rep.cov["exhaustive"] = False
+    rep.assumptions += ["sqlgen rendering (term -> SQL) is trusted", "TLC evaluates Algebra.tla correctly"]
+    return rep.finish()
